@@ -24,13 +24,74 @@ ERR_NAMES = {0: 'ok', 1: 'whitespace', 2: 'identifier', 3: 'duplicate', 4: 'miss
              9: 'complex-multi'}
 
 LITS = ['a', 'b', 'foo', "it's", 'a\\b', 'x.y', 'q(1)', 'ü', 'a+b', 'v', '', 'a}b', '12', '$', 'A']
-SIMPLE = ['{x}', '{y}', '{id}', '{x:int}', '{n:int(2)}', '{n:int(min=5)}', '{k:int(num_digits=1, max=7)}',
-          '{p:path}', '{z:path}', '{m:int(3, max=500)}']
+INT_ARGS = ['', '(2)', '(min=5)', '(num_digits=1, max=7)', '(3, max=500)',
+            # bounds at zero, negative, positive, equal; positional and keyword forms
+            '(min=0)', '(max=0)', '(min=0, max=0)', '(min=-5, max=-2)', '(min=3, max=7)', '(min=4, max=4)',
+            '(num_digits=1, max=0)', '(2, min=0)', '(min=-5)', '(max=-2)', '(None, 0, 0)', '(None, -1, 1)',
+            '(num_digits=2, min=0, max=10)', '(1, 0)']
+FLOAT_ARGS = ['', '(min=0)', '(max=0)', '(min=0.0, max=0.0)', '(min=-1.5, max=2.5)', '(finite=False)',
+              '(min=0, finite=False)', '(max=0, finite=False)', '(min=1.5, max=1.5)', '(0, 0)', '(max=-0.5)',
+              '(min=0.5)']
+OTHER_CONV = ['uuid', 'dt', 'dt("%Y-%m-%d")', 'path']
+CONVS = ['int' + a for a in INT_ARGS] + ['float' + a for a in FLOAT_ARGS] + OTHER_CONV
+SIMPLE = ['{x}', '{y}', '{id}', '{p:path}', '{z:path}'] + ['{n:%s}' % c for c in CONVS if c != 'path']
 BAD = ['{x:nope}', '{x:}', '{x:int(0)}', '{class}', '{1x}', '{x\n}', '{x }', 'a b', '{}', '{x:int(q=1)}',
-       '{x:(2)}', 'a\tb', '{a}-{b\n}', '{x:int(}', '{p:path}.x', 'r{p:path}', '{a}-{a}']
-CPLX = ['{x}.json', '{a}-{b}', '{a}.{b}', 'v{a}', '{a}v', '{n:int}-{m}', '{n:int(2)}x', '{a}{b}',
-        'pre{x}', '{a}.{b}.{c:int}', '{y}.json', '{c}-{d}', '{a}-{n:int(min=5)}', '({x})', '{x}.{y}.json',
-        '{i:int}.{j:int}', '{x}}']
+       '{x:(2)}', 'a\tb', '{a}-{b\n}', '{x:int(}', '{p:path}.x', 'r{p:path}', '{a}-{a}', '{f:float(1, 2, 3, 4)}',
+       '{u:uuid(1)}']
+CPLX = ['{x}.json', '{a}-{b}', '{a}.{b}', 'v{a}', '{a}v', '{a}{b}', 'pre{x}', '{y}.json', '{c}-{d}', '({x})',
+        '{x}.{y}.json', '{x}}', '{i:int}.{j:int}', '{a}.{b}.{c:int}'] + \
+       ['{n:%s}-{m}' % c for c in CONVS if c != 'path'] + \
+       ['{a}_{k:%s}' % c for c in CONVS[:31:3]] + ['v{n:%s}' % c for c in CONVS[1:31:4]] + \
+       ['{i:int(min=0)}.{f:float(max=0)}', '{u:uuid}.{e}', '{d:dt("%Y-%m-%d")}T{h:int(2)}']
+
+UUIDS = ['12345678-1234-5678-1234-567812345678', '12345678123456781234567812345678',
+         '{12345678-1234-5678-1234-567812345678}', 'urn:uuid:12345678-1234-5678-1234-567812345678',
+         '12345678-1234-5678-1234-56781234567', 'zz']
+DTS = ['2020-01-02T03:04:05Z', '2020-01-02T03:04:05+0100', '2020-01-02', '2020-13-02', '2020', 'q']
+
+
+def probes(cname, arg):
+    """probe strings for a converter field: just below / at / above every bound, zero in its
+    spellings, digit counts around num_digits, and non-numeric text"""
+    nums = [float(x) for x in re.findall(r'-?\d+(?:\.\d+)?', arg or '')]
+    if cname == 'int':
+        out = ['0', '-0', '+0', '00', '-1', '1', '5', '12', '123', 'q', ' 1', '1_0']
+        for b in nums:
+            b = int(b)
+            out += [str(b - 1), str(b), str(b + 1)]
+        return out
+    if cname == 'float':
+        out = ['0', '-0.0', '+0', '00', '.5', '-.5', '1e0', 'nan', 'inf', '-inf', '1_0', '-1', '1.5', 'q', '5', '1e400']
+        for b in nums:
+            out += [repr(b - 0.5), repr(b), repr(b + 0.5), str(int(b))]
+        return out
+    if cname == 'uuid':
+        return UUIDS
+    if cname == 'dt':
+        return DTS
+    if cname == 'path':
+        return ['q', 'a.b', '']
+    return ['q', '12', '5']
+
+
+FIELD_RX = re.compile(r'\{([^}:]*)(?::([^}(]*)(?:\(([^}]*)\))?)?\}')
+
+
+def seg_candidates(seg, rng, n):
+    """n strings a template segment might be asked to match (accepting and rejecting)"""
+    if '{' not in seg:
+        return [seg]
+    out = []
+    for _ in range(n):
+        def sub(m):
+            cname, arg = m.group(2), m.group(3)
+            if not cname:
+                return rng.choice(['q', '12', '5', 'x', 'a-b'])
+            return rng.choice(probes(cname, arg))
+        out.append(FIELD_RX.sub(sub, seg))
+    return out
+
+
 PATH_EXTRA = ['q', '12', '5', '123', '-3', '07', ' 1', 'q\n', '', 'a.json', 'a-b', 'a-b-c', 'a.b', '12-z', '12x',
               'va', 'ab', 'prex', '1.2.3', '9-12', '(q)', 'q.r.json', '1.2', 'x}', 'zz']
 
@@ -45,15 +106,27 @@ class Res:
 
 # ------------------------------------------------------------------ generators
 
+NAMES = ['a', 'b', 'c', 'x', 'y', 'n', 'm', 'k', 'id']
+
+
+def rename(seg, rng):
+    """give the fields of a menu segment fresh names (keeps them distinct within the segment)"""
+    names = rng.sample(NAMES, len(NAMES))
+    it = iter(names)
+    return re.sub(r'\{([A-Za-z_]\w*)(?=[:}])', lambda m: '{' + next(it), seg)
+
+
 def gen_segment(rng, bad_p=0.08):
     r = rng.random()
     if r < bad_p:
         return rng.choice(BAD)
-    if r < 0.45:
+    if r < 0.40:
         return rng.choice(LITS)
+    if r < 0.52:
+        return rename('{x}', rng)
     if r < 0.72:
-        return rng.choice(SIMPLE)
-    return rng.choice(CPLX)
+        return rename(rng.choice(SIMPLE), rng)
+    return rename(rng.choice(CPLX), rng)
 
 
 def gen_template(rng, pool):
@@ -64,7 +137,9 @@ def gen_template(rng, pool):
         segs = base[:keep]
     else:
         segs = []
-    n = rng.randint(1, 3)
+    # sometimes exactly a (strict) prefix of, or the same as, an earlier template: the new route
+    # then ends on an existing intermediate node / overrides a resource without extending the tree
+    n = 0 if (segs and rng.random() < 0.2) else rng.randint(1, 3)
     segs = segs + [gen_segment(rng) for _ in range(n)]
     segs = segs[:5]
     pool.append(segs)
@@ -92,12 +167,79 @@ def field_specs(compiled, tpl):
     return out
 
 
-def conv_table(falcon, compiled, router, templates):
-    """oracle for eval('Klass(argstr)'): per (cname, argstr) occurring in the templates.
-    Returns (table, usable): usable False when a converter outside the modelled set occurs."""
+def other_repr(v):
+    """canonical text of a converted value the model does not compute itself"""
+    import datetime
+    import uuid
+    if isinstance(v, float):
+        return 'float:' + repr(v)
+    if isinstance(v, uuid.UUID):
+        return 'uuid:' + str(v)
+    if isinstance(v, datetime.datetime):
+        return 'dt:' + v.isoformat()
+    return 'other:' + repr(v)
+
+
+def rat(v):
+    if v is None:
+        return []
+    n, d = float(v).as_integer_ratio()
+    return [n, d]
+
+
+def float_oracle(strings):
+    """graph of float() on the candidate strings: exact rational / infinity / nan, with the
+    canonical text of the resulting value"""
+    import math
+    out = []
+    for st in strings:
+        try:
+            x = float(st)
+        except ValueError:
+            continue
+        if math.isnan(x):
+            out.append([st, [2, other_repr(x)]])
+        elif math.isinf(x):
+            out.append([st, [1, 1 if x < 0 else 0, other_repr(x)]])
+        else:
+            n, d = x.as_integer_ratio()
+            out.append([st, [0, n, d, other_repr(x)]])
+    return out
+
+
+def substrings(strings, templates=(), compiled=None):
+    """the strings a converter can be handed: whole path segments (single-field nodes) and the
+    group texts of every multi-field template segment matched against every path segment (the
+    segment pattern is matched once; a converter veto does not re-split)"""
+    out = set(strings)
+    out.add('')
+    if compiled is not None:
+        for tpl in templates:
+            for seg in tpl.lstrip('/').split('/'):
+                if seg.count('{') == 0 or (seg.startswith('{') and seg.endswith('}') and seg.count('{') == 1):
+                    continue
+                try:
+                    node = compiled.CompiledRouterNode(seg)
+                except Exception:
+                    continue
+                if node.var_pattern is None:
+                    continue
+                for st in strings:
+                    m = node.var_pattern.match(st)
+                    if m:
+                        out.update(v for v in m.groupdict().values() if v is not None)
+    return sorted(out)
+
+
+def conv_table(falcon, compiled, router, templates, strings=()):
+    """oracle for eval('Klass(argstr)'): per (cname, argstr) occurring in the templates.  Int and
+    path converters are modelled; float is modelled on top of an oracle for float(); every other
+    converter is an oracle: the graph of its convert() on `strings` (all substrings of the path
+    segments that will be looked up).  Returns (table, multi, usable)."""
     from falcon.routing import converters
     tab, seen, usable = [], set(), True
     cmap = router.options.converters
+    subs = None
     for tpl in templates:
         for seg in tpl.split('/'):
             for cname, arg in field_specs(compiled, seg):
@@ -120,8 +262,46 @@ def conv_table(falcon, compiled, router, templates):
                     tab.append([cname, a, [2] + [[] if v is None else [v] for v in vals]])
                 elif type(obj) is converters.PathConverter:
                     tab.append([cname, a, [3]])
-                else:
+                elif type(obj) is converters.FloatConverter:
+                    if subs is None:
+                        subs = substrings(strings, templates, compiled)
+                    if any(v is not None and type(v) not in (int, float) for v in (obj._min, obj._max)):
+                        usable = False
+                        continue
+                    tab.append([cname, a, [4, rat(obj._min), rat(obj._max), 1 if obj._finite else 0,
+                                           float_oracle(subs)]])
+                elif converters._consumes_multiple_segments(obj):
                     usable = False
+                else:
+                    if subs is None:
+                        subs = substrings(strings, templates, compiled)
+                    graph = []
+                    # the oracle for the built-in converters is the stdlib function they are
+                    # documented to apply (ValueError = veto), not their own convert()
+                    if type(obj) is converters.UUIDConverter:
+                        import uuid as _uuid
+                        oracle = _uuid.UUID
+                    elif type(obj) is converters.DateTimeConverter:
+                        import datetime as _dt
+                        oracle = (lambda st, f=obj._format_string: _dt.datetime.strptime(st, f))
+                    else:
+                        oracle = None
+                    for st in subs:
+                        try:
+                            if oracle is not None:
+                                try:
+                                    v = oracle(st)
+                                except ValueError:
+                                    v = None
+                            else:
+                                v = obj.convert(st)
+                        except Exception:          # a converter that raises is outside the model
+                            usable = False
+                            break
+                        if v is not None:
+                            graph.append([st, [1, v] if type(v) is int else [0, v] if type(v) is str
+                                          else [2, other_repr(v)]])
+                    tab.append([cname, a, [5, graph]])
     multi = [n for n, k in cmap.items() if converters._consumes_multiple_segments(k)]
     return tab, multi, usable
 
@@ -139,7 +319,7 @@ def canon_find(res):
         elif type(v) is str:
             ps.append([k, [0, v]])
         else:
-            ps.append([k, [0, 'OTHER:' + repr(v)]])
+            ps.append([k, [2, other_repr(v)]])
     return [resource.i, ps]
 
 
@@ -149,7 +329,7 @@ def canon_model(v):
     rid, ps = v
     out = []
     for k, val in ps:
-        out.append([common.wstr(k), [val[0], common.wstr(val[1]) if val[0] == 0 else val[1]]])
+        out.append([common.wstr(k), [val[0], val[1] if val[0] == 1 else common.wstr(val[1])]])
     return [rid, sorted(out)]
 
 
@@ -302,20 +482,19 @@ def canon_cx(v):
 
 # ------------------------------------------------------------------ representatives
 
-def representatives(templates, limit=14, rng=None):
+def representatives(templates, limit=16, rng=None):
     reps = []
 
     def add(s):
         if s not in reps:
             reps.append(s)
+    import random
+    r = rng or random.Random(0)
     for tpl in templates:
         for seg in tpl.lstrip('/').split('/'):
-            if '{' not in seg:
-                add(seg)
-            else:
-                for sub in ('q', '12', '5'):
-                    add(re.sub(r'\{[^}]*\}', sub, seg))
-    for s in ('q', '12', '', 'q\n', '5', '-3', 'a.json', '123'):
+            for c in seg_candidates(seg, r, 3):
+                add(c)
+    for s in ('q', '12', '', 'q\n', '5', '-3', 'a.json', '123', '0'):
         add(s)
     if len(reps) > limit and rng is not None:
         head = reps[:4]
@@ -336,16 +515,15 @@ def paths_for(templates, rng, max_paths):
                 paths.append('/' + '/'.join(combo))
     else:
         seen = set()
-        # guided: walk the templates substituting representatives, plus random paths
+        # guided: walk every template with probe values for its converter fields (just below /
+        # at / above each bound, zero spellings ...), truncated and extended; plus random paths
         for tpl in templates:
             segs = tpl.lstrip('/').split('/')
-            for _ in range(12):
+            for _ in range(max(12, min(40, max_paths // (2 * len(templates) + 1)))):
                 p = []
                 for seg in segs:
-                    if '{' in seg and rng.random() < 0.8:
-                        p.append(re.sub(r'\{[^}]*\}', lambda m: rng.choice(['q', '12', '5', '123', 'a-b']), seg))
-                    elif rng.random() < 0.85:
-                        p.append(seg)
+                    if rng.random() < 0.9:
+                        p.append(seg_candidates(seg, rng, 1)[0])
                     else:
                         p.append(rng.choice(reps))
                 if rng.random() < 0.25:
@@ -369,12 +547,16 @@ def check_history(ctx, model, ops, paths=None, max_paths=400, tag='gen'):
     rng = ctx.rng
     templates = [o[1] for o in ops if o[0] == 'add']
     A = compiled.CompiledRouter()
-    tab, multi, usable = conv_table(falcon, compiled, A, templates)
+    if paths is None:
+        paths = paths_for(templates, rng, max_paths)
+    for o in ops:
+        if o[0] == 'find' and o[1] is None:
+            o[1] = rng.choice(paths)
+    segs = {sg for p in list(paths) + [o[1] for o in ops if o[0] == 'find'] for sg in p.lstrip('/').split('/')}
+    tab, multi, usable = conv_table(falcon, compiled, A, templates, strings=segs)
     if not usable:
         ctx.count('skipped-unmodelled-converter')
         return True
-    if paths is None:
-        paths = paths_for(templates, rng, max_paths)
     resources = {}
     real_ops, wire_ops, accepted = [], [], []
     for o in ops:
@@ -642,7 +824,8 @@ def lib_corr(ctx, model):
     for i in range(0, len(cases), 997):
         ctx.note_case(('segmatch', i), meta[i][2] is not None)
     # int_convert vs IntConverter.convert
-    cfgs = [(None, None, None), (2, None, None), (None, 5, None), (1, None, 7), (3, None, 500), (None, -3, 3)]
+    cfgs = [(None, None, None), (2, None, None), (None, 5, None), (1, None, 7), (3, None, 500), (None, -3, 3),
+            (None, 0, None), (None, None, 0), (None, 0, 0), (1, 0, None), (2, None, 0), (None, -1, 0), (None, 0, 1)]
     alpha3 = ['0', '1', '9', '_', '+', '-', ' ', 'a', '\n']
     ss = ['']
     for k in range(1, 5):
@@ -668,9 +851,62 @@ def lib_corr(ctx, model):
         ctx.note_case(('int', i), meta[i][2] is not None)
 
 
+def float_corr(ctx, model):
+    """float_convert (bounds / finite / strip modelled, float() an oracle) vs FloatConverter.convert"""
+    from falcon.routing import converters
+    viol = lambda kind, d, key: ctx.violation(kind, d, found_input=False, key=key)  # noqa
+    cfgs = [(None, None, True), (0, None, True), (None, 0, True), (0.0, 0.0, True), (-1.5, 2.5, True),
+            (None, None, False), (0, None, False), (None, 0, False), (1.5, 1.5, True), (0.5, None, True),
+            (None, -0.5, True), (-0.0, None, True)]
+    alpha = ['0', '1', '5', '.', '-', '+', 'e', ' ', 'n', 'a', 'i', 'f', '_']
+    ss = ['']
+    for k in range(1, 4):
+        ss += [''.join(t) for t in itertools.product(alpha, repeat=k)]
+    ss += ['-0.0', '+0.0', '0.5', '-0.5', '1.5', '2.5', '2.6', '-1.5', '-1.6', 'nan', '-nan', 'inf', '-inf', 'infinity',
+           '1e400', '-1e400', '1e-400', '0.49999999999999994', '1_0', ' 1', '1 ', '\t1', '1\n', '00', '0x1', '1e0',
+           '.5', '5.', '٣', 'Infinity', 'NaN']
+    tbl = float_oracle(ss)
+    cases, n_bad = [], 0
+    for mn, mx, fin in cfgs:
+        c = converters.FloatConverter(mn, mx, fin)
+        out = model.run([4, rat(mn), rat(mx), 1 if fin else 0, tbl, ss])
+        for st, o in zip(ss, out[1]):
+            v = c.convert(st)
+            want = None if v is None else other_repr(v)
+            got = common.wstr(o[0][1]) if o else None
+            cases.append(want)
+            if got != want and n_bad < 3:
+                n_bad += 1
+                viol('correspondence-broken', {'broken': 'C01.float_convert_corr', 'cfg': (mn, mx, fin), 'string': st,
+                                               'impl': want, 'model': got}, 'corr-float')
+    meta = [(None, None, w) for w in cases]
+    ctx.count('float_convert-vs-impl', len(cases))
+    for i in range(0, len(cases), 997):
+        ctx.note_case(('float', i), meta[i][2] is not None)
+
+
 # ------------------------------------------------------------------ entry points
 
 FIXED_HISTORIES = [
+    # a route added after compilation that ends on an existing intermediate node
+    [['add', '/users/{id}/posts', 0, False], ['find', '/users/7/posts'], ['add', '/users/{id}', 1, False],
+     ['find', '/users/7'], ['add', '/users', 2, False], ['find', '/users'], ['add', '/users/{id}', 3, False],
+     ['find', '/users/8']],
+    # converter bounds at zero: the veto must send the walk on to the single-field sibling
+    [['add', '/v/{n:int(max=0)}-{m}', 0, False], ['add', '/v/{name}', 1, False], ['find', '/v/5-x'], ['find', '/v/0-x'],
+     ['find', '/v/-1-x'], ['find', '/v/-0-x']],
+    [['add', '/pages/{n:int(min=0)}', 0, False], ['add', '/pages/{n:int(min=0)}/x', 1, True], ['add', '/{a}/{b}', 2, False],
+     ['find', '/pages/-1'], ['find', '/pages/0'], ['find', '/pages/-0'], ['find', '/pages/-1/x']],
+    [['add', '/f/{x:float(min=0)}', 0, False], ['add', '/f/{y:float(max=0)}/neg', 1, False], ['add', '/f/{s}/neg', 2, False],
+     ['find', '/f/-0.5'], ['find', '/f/0.5/neg'], ['find', '/f/-0.5/neg'], ['find', '/f/-0.0/neg'], ['find', '/f/nan']],
+    [['add', '/{x:float(min=0.0, max=0.0)}-{r}', 0, False], ['add', '/{i:int(min=0, max=0)}', 1, False], ['add', '/{any}', 2, False],
+     ['find', '/0-a'], ['find', '/1-a'], ['find', '/-1-a'], ['find', '/0'], ['find', '/1'], ['find', '/00']],
+    # every built-in converter vetoes and the walk backtracks
+    [['add', '/o/{u:uuid}', 0, False], ['add', '/o/{d:dt}', 1, False], ['add', '/o/{f:float}', 2, False],
+     ['add', '/o/{u:uuid}/x', 3, False], ['add', '/o/{p:path}', 4, False], ['find', '/o/' + UUIDS[0]], ['find', '/o/zz'],
+     ['find', '/o/' + UUIDS[1] + '/x'], ['find', '/o/zz/x']],
+    [['add', '/e/{d:dt(\"%Y-%m-%d\")}/{rest}', 0, False], ['add', '/e/{name}/{n:int(2)}', 1, False],
+     ['find', '/e/2020-01-02/07'], ['find', '/e/2020-13-02/07'], ['find', '/e/2020-13-02/7']],
     # defect candidates of DESIGN.md section 10 and their neighbours
     [['add', "/it's", 0, False], ['find', "/it's"], ['find', '/x']],
     [['add', '/a\\b', 0, False], ['find', '/a\\b']],
@@ -709,6 +945,7 @@ def main(ctx):
     for o in common.corpus('C01'):
         replay(ctx, o)
     lib_corr(ctx, model)
+    float_corr(ctx, model)
     for h in FIXED_HISTORIES:
         check_history(ctx, model, [list(o) for o in h], tag='fixed')
     n_hist = 260 if ctx.tier == 'quick' else 2600
